@@ -243,6 +243,37 @@ def mulModVartimeT (n : Nat) (p : List Sec) : Trace := splitMulT n n ++ remWideV
 theorem mulModVartime_tr (n : Nat) (a b p : List Sec) : (mulModVartime n a b p).tr = mulModVartimeT n p := by
   unfold mulModVartimeT mulModVartime; leak_simp; simp only [splitMul_tr, remWideVartime_tr]
 
+/-! ### `div_rem_vartime` -/
+def dvTripT (yc xi : Nat) : Trace := (dvTrip yc xi [] zero ([], zero)).tr
+@[simp] theorem dvTrip_tr (yc xi : Nat) (y : List Sec) (r : Sec) (st : List Sec × Sec) : (dvTrip yc xi y r st).tr = dvTripT yc xi := by
+  unfold dvTripT dvTrip; leak_simp; simp only [div3by2_tr, rwSubLoop_tr, rwAddLoop_tr]
+
+def dvLoopT (n yc : Nat) : Trace := (dvLoop n yc [] zero ([], zero)).tr
+@[simp] theorem dvLoop_tr (n yc : Nat) (y : List Sec) (r : Sec) (st : List Sec × Sec) : (dvLoop n yc y r st).tr = dvLoopT n yc := by
+  unfold dvLoopT dvLoop
+  apply forN_tr_congr; intro i s s'; simp only [dvTrip_tr]
+
+def dvCopyRemT (yc : Nat) : Trace := (dvCopyRem yc [] zero []).tr
+@[simp] theorem dvCopyRem_tr (yc : Nat) (x : List Sec) (h : Sec) (y : List Sec) : (dvCopyRem yc x h y).tr = dvCopyRemT yc := by
+  unfold dvCopyRemT dvCopyRem; leak_simp
+  have : ∀ (x y : List Sec), (forN (yc - 1) (fun i r => do pubIndex i; pure (r.set i (limb x i))) y).tr =
+      (forN (yc - 1) (fun i r => do pubIndex i; pure (r.set i (limb ([] : List Sec) i))) ([] : List Sec)).tr := by
+    intro x y; leak_loop
+  rw [this]
+
+def dvShiftQuoT (n yc : Nat) : Trace := (dvShiftQuo n yc []).tr
+@[simp] theorem dvShiftQuo_tr (n yc : Nat) (x : List Sec) : (dvShiftQuo n yc x).tr = dvShiftQuoT n yc := by
+  unfold dvShiftQuoT dvShiftQuo; leak_loop
+
+def divRemVartimeBodyT (n dbits : Nat) : Trace := (divRemVartimeBody n dbits [] []).tr
+@[simp] theorem divRemVartimeBody_tr (n dbits : Nat) (a d : List Sec) : (divRemVartimeBody n dbits a d).tr = divRemVartimeBodyT n dbits := by
+  unfold divRemVartimeBodyT divRemVartimeBody; leak_simp
+  simp only [divRemLimb_tr, resize_tr, shlLimbVartime_tr, reciprocal_tr, dvLoop_tr, dvCopyRem_tr, shrLimbVartime_tr, dvShiftQuo_tr]
+
+def divRemVartimeT (n : Nat) (d : List Sec) : Trace := (divRemVartime n [] d).tr
+theorem divRemVartime_tr (n : Nat) (a d : List Sec) : (divRemVartime n a d).tr = divRemVartimeT n d := by
+  unfold divRemVartimeT divRemVartime; leak_simp; simp only [divRemVartimeBody_tr]
+
 /-! ### `random_mod` -/
 def rmLowLoopT (nl : Nat) : Trace := (rmLowLoop nl [] []).tr
 @[simp] theorem rmLowLoop_tr (nl : Nat) (s c : List Sec) : (rmLowLoop nl s c).tr = rmLowLoopT nl := by
